@@ -75,6 +75,15 @@ func (mp MultiPolygon) Polygons() []Polygon {
 // The algorithm will not check to make sure the holes are
 // actually inside the outer rings.
 func (mp MultiPolygon) Centroid() Point {
+	// See Polygon.Centroid: the sums are formed relative to the first vertex.
+	if ox, oy := centroidOrigin(mp...); ox != 0 || oy != 0 {
+		q := make(MultiPolygon, len(mp))
+		for i, p := range mp {
+			q[i] = p.translated(ox, oy)
+		}
+		c := q.Centroid()
+		return Point{X: c.X + ox, Y: c.Y + oy}
+	}
 	// See Polygon.Centroid: the sums are cubic in the coordinates.
 	if kx, ky := centroidScale(mp...); kx != 1 || ky != 1 {
 		q := make(MultiPolygon, len(mp))
